@@ -517,6 +517,19 @@ def l_append(ex, st, o, args, kwargs, node):
     return None
 
 
+@lm("insert")
+def l_insert(ex, st, o, args, kwargs, node):
+    if not isinstance(o, Ref):
+        raise Unsupported("insert into a non-heap list")
+    i = st.get(args[0])
+    if not isinstance(i, int) or isinstance(i, bool):
+        raise Unsupported("list.insert at a symbolic position")
+    items = list(st.get(o).items)
+    items.insert(i, args[1])
+    st.put(o, ListV(items))
+    return None
+
+
 @lm("extend")
 def l_extend(ex, st, o, args, kwargs, node):
     v = st.get(args[0])
